@@ -10,44 +10,58 @@
 (*             spec derived from the setter events (a write bypassed them)   *)
 (*   restored  a call returned or raised with some context's (prec, dps)     *)
 (*             different from what it was on entry                     (C11) *)
-(*   isolation a set on context c changed another context               (C38) *)
+(*   isolation an action on context c changed a setting of another one  (C38) *)
+(*   clone     a cloned context returned a different value than mp       (C38) *)
 (* After a mismatch the spec adopts the logged state so that the rest of    *)
 (* the trace is still judged.                                               *)
 (***************************************************************************)
 EXTENDS PrecState, Sequences, Json, IOUtils, TLC
 Trace == ndJsonDeserialize(IOEnv.TRACE_FILE)
-VARIABLES stack, l
-vars == <<prec, dps, stack, l>>
+VARIABLES oth, stack, l             \* oth[c] = <<pretty, trap_complex>> of context c
+vars == <<prec, dps, oth, stack, l>>
 FMAX == 36000                      \* range on which the conversion formulas were validated
 Names(st) == DOMAIN st
 PMap(st) == [c \in DOMAIN st |-> st[c][1]]
 DMap(st) == [c \in DOMAIN st |-> st[c][2]]
+OMap(st) == [c \in DOMAIN st |-> <<st[c][3], st[c][4]>>]
+Differs(st) == PMap(st) # prec \/ DMap(st) # dps \/ OMap(st) # oth
+Adopt(st) == prec' = PMap(st) /\ dps' = DMap(st) /\ oth' = OMap(st)
 Say(id, cl) == IF cl = {} THEN TRUE ELSE PrintT(<<"BAD", id, cl>>)
 
-Init == l = 1 /\ prec = <<>> /\ dps = <<>> /\ stack = <<>>
+Init == l = 1 /\ prec = <<>> /\ dps = <<>> /\ oth = <<>> /\ stack = <<>>
 
-TraceInit(e) == /\ prec' = PMap(e.st) /\ dps' = DMap(e.st) /\ stack' = stack
+TraceInit(e) == Adopt(e.st) /\ stack' = stack
 
 TraceSet(e) ==
   LET s == IF e.ev = "set_prec" THEN SetPrecF(prec, dps, e.c, e.n) ELSE SetDpsF(prec, dps, e.c, e.n)
       logged == <<[prec EXCEPT ![e.c] = e.st[1]], [dps EXCEPT ![e.c] = e.st[2]]>>
       judged == e.n >= 0 /\ e.n <= FMAX
   IN /\ Say(e.id, IF judged /\ s # logged THEN {"setter"} ELSE {})
-     /\ prec' = logged[1] /\ dps' = logged[2] /\ stack' = stack
+     /\ prec' = logged[1] /\ dps' = logged[2] /\ oth' = oth /\ stack' = stack
 
 TraceEnter(e) ==
-  /\ Say(e.id, IF PMap(e.st) # prec \/ DMap(e.st) # dps THEN {"sync"} ELSE {})
-  /\ prec' = PMap(e.st) /\ dps' = DMap(e.st)
-  /\ stack' = Append(stack, [f |-> e.f, p |-> PMap(e.st), d |-> DMap(e.st)])
+  /\ Say(e.id, IF Differs(e.st) THEN {"sync"} ELSE {})
+  /\ Adopt(e.st)
+  /\ stack' = Append(stack, [f |-> e.f, p |-> PMap(e.st), d |-> DMap(e.st), o |-> OMap(e.st)])
 
 TraceExit(e) ==
   LET fr == stack[Len(stack)]
       changed == {c \in DOMAIN e.st : PMap(e.st)[c] # fr.p[c] \/ DMap(e.st)[c] # fr.d[c]}
-  IN /\ Say(e.id, (IF PMap(e.st) # prec \/ DMap(e.st) # dps THEN {"sync"} ELSE {})
+      flags == {c \in DOMAIN e.st : OMap(e.st)[c] # fr.o[c]}
+  IN /\ Say(e.id, (IF Differs(e.st) THEN {"sync"} ELSE {})
                   \cup (IF changed # {} THEN {"restored"} ELSE {})
-                  \cup (IF changed \ {e.c} # {} THEN {"isolation"} ELSE {}))
-     /\ prec' = PMap(e.st) /\ dps' = DMap(e.st)
+                  \cup (IF (changed \cup flags) \ {e.c} # {} THEN {"isolation"} ELSE {}))
+     /\ Adopt(e.st)
      /\ stack' = SubSeq(stack, 1, Len(stack) - 1)
+
+\* a user-level change of any setting of context e.c (C38): no other context may change
+TraceAct(e) ==
+  LET moved == {c \in DOMAIN e.st : PMap(e.st)[c] # prec[c] \/ DMap(e.st)[c] # dps[c] \/ OMap(e.st)[c] # oth[c]}
+  IN /\ Say(e.id, IF moved \ {e.c} # {} THEN {"isolation"} ELSE {})
+     /\ Adopt(e.st) /\ stack' = stack
+\* two outcomes that must be identical (a clone at the same precision)
+TraceSame(e) == /\ Say(e.id, IF e.a # e.b THEN {"clone"} ELSE {})
+                /\ UNCHANGED <<prec, dps, oth, stack>>
 
 Next == /\ l <= Len(Trace) /\ l' = l + 1
         /\ LET e == Trace[l] IN
@@ -55,5 +69,7 @@ Next == /\ l <= Len(Trace) /\ l' = l + 1
              [] e.ev \in {"set_prec", "set_dps"} -> TraceSet(e)
              [] e.ev = "enter" -> TraceEnter(e)
              [] e.ev \in {"return", "raise"} -> TraceExit(e)
+             [] e.ev = "act" -> TraceAct(e)
+             [] e.ev = "same" -> TraceSame(e)
 Consumed == TLCGet("stats").diameter - 1 = Len(Trace)
 =============================================================================
